@@ -2,7 +2,7 @@
 """One-off validation of the reference oracles in props/c06.py against the platform compilers (NOT part of any check:
 the checks never run compiled code).  Generates struct/union definitions for the alphabet used by C06.a and enum
 definitions for C06.c, compiles them with gcc / clang, runs the probe and compares with layout() / enum_ref().
-Last run: 4710 layouts vs gcc 12: 0 mismatches; 791 enums vs clang 14: 0 mismatches in size/alignment/signedness/values
+Last run: 4710 layouts + 1099 packed/_Alignas layouts vs gcc 12: 0 mismatches; 791 enums vs clang 14: 0 mismatches in size/alignment/signedness/values
 (gcc 12 predates C23 wide enums and rejects INT_MAX+1 increments; clang 14 keeps `int` enumerator types where C23 gives
 the enumerated type - cproc and the reference follow C23 6.7.2.2p15)."""
 import itertools, os, random, subprocess, sys, tempfile
@@ -73,5 +73,31 @@ def enums():
         if want != l:
             bad += 1; print(c, 'clang', l, 'ref', want)
     print(len(keys), 'enums', bad, 'mismatches')
-layouts(); enums()
+def attrs():
+    PLAIN = [a for a in ALPHA if a[1] is None]
+    cases = []
+    for n in (1, 2, 3):
+        for s_ in itertools.product(PLAIN, repeat=n): cases.append(('pack', tuple((t, w, nm, 0) for t, w, nm in s_)))
+    for n in (1, 2):
+        for s_ in itertools.product(PLAIN, repeat=n):
+            for als in itertools.product((0, 8, 16, 32), repeat=n):
+                if not any(als) or any(al and al < ns['TY'][t][1] for (t, _, _), al in zip(s_, als)): continue
+                cases.append(('al', tuple((t, w, nm, al) for (t, w, nm), al in zip(s_, als))))
+    out = ['#include <stdio.h>', '#include <stddef.h>', 'struct S12 { int a, b, c; }; typedef char A3[3];']; calls = []
+    for k, (mode, seq) in enumerate(cases):
+        body = ''.join('%s%s m%d; ' % ('_Alignas(%d) ' % al if al else '', CT.get(t, t), i) for i, (t, w, nm, al) in enumerate(seq))
+        out.append('struct %s T%d { %s};' % ('__attribute__((packed))' if mode == 'pack' else '', k, body))
+        p = ''.join(' printf(" %%zu", offsetof(struct T%d, m%d)*8);' % (k, i) for i in range(len(seq)))
+        out.append('void f%d(void){printf("%%zu %%zu", sizeof(struct T%d), _Alignof(struct T%d));%s printf("\\n");}' % (k, k, k, p)); calls.append('f%d();' % k)
+    out.append('int main(void){%s}' % ''.join(calls))
+    open(d + '/a.c', 'w').write('\n'.join(out))
+    subprocess.check_call(['gcc', '-w', '-o', d + '/a', d + '/a.c'])
+    bad = 0
+    for (mode, seq), l in zip(cases, subprocess.check_output([d + '/a']).decode().splitlines()):
+        size, align, mem = layout(seq, False, pack=(mode == 'pack'))
+        want = '%d %d' % (size, align) + ''.join(' %d' % m[0] for m in mem)
+        if want != l:
+            bad += 1; print(mode, seq, 'gcc', l, 'ref', want)
+    print(len(cases), 'packed/_Alignas layouts', bad, 'mismatches')
+layouts(); enums(); attrs()
 subprocess.call(['rm', '-rf', d])
